@@ -117,7 +117,18 @@ func flagSliceLens(pass *analysis.Pass) {
 					// we know the argument has to have even length.
 					// now let's try to find its length
 					if n := findSliceLength(arg); n > -1 && n%2 != 0 {
-						src := call.Source().(*ast.CallExpr).Args[argi]
+						var astcall *ast.CallExpr
+						switch source := call.Source().(type) {
+						case *ast.CallExpr:
+							astcall = source
+						case *ast.DeferStmt:
+							astcall = source.Call
+						case *ast.GoStmt:
+							astcall = source.Call
+						default:
+							continue
+						}
+						src := astcall.Args[argi]
 						sig := call.Common().Signature()
 						var label string
 						if argi == sig.Params().Len()-1 && sig.Variadic() {
